@@ -133,12 +133,12 @@ def run_op(op):
             import io
             import logging
 
-            logging.disable(logging.CRITICAL)
+            core.log_off()
             try:
                 rd = pyubx2.UBXReader(io.BytesIO(bytes(op[1])), quitonerror=0, msgmode=op[2])
                 res = [(raw.hex(), str(p)) for raw, p in rd]
             finally:
-                logging.disable(logging.NOTSET)
+                core.log_on()
             return "ok:" + repr(res)
         if k == "helper":
             if op[1] == "cfgkey2name":
@@ -687,7 +687,7 @@ def run_shard(spec, ctx, acc):
         if i % 2 == spec["part"] % 2:
             for _rep in range(2 if quick else 6):
                 case = {"kind": "coldstart", "op": op, "probe": i}
-                core.handle(acc, check(case), case, known)
+                core.handle(acc, core.checked(check, case), case, known)
     strat = st.lists(st.lists(any_op(), min_size=5, max_size=25), min_size=8, max_size=8).map(
         lambda jobs: {"kind": "threads", "jobs": jobs})
     core.hyp_search(acc, strat, check, seed=core.derive(ctx["seed"], PROP, "t", spec["part"]),
